@@ -71,6 +71,18 @@ def content_dispatch(prog: Program):
     def chain(stmt: ast.If):
         nonlocal fall
         ns = names_of(stmt.test)
+        cv = prog.const(fi.module, stmt.test)
+        if ns is None and isinstance(cv, bool):
+            # a constant test: a dead arm (False: nothing is dispatched to it) or a catch-all (True: it takes every name that
+            # reaches it, i.e. it is the fall-through and what follows is dead)
+            if cv:
+                fall = stmt.body
+                return
+            if len(stmt.orelse) == 1 and isinstance(stmt.orelse[0], ast.If):
+                chain(stmt.orelse[0])
+            elif stmt.orelse:
+                fall = stmt.orelse
+            return
         if ns is None:
             raise AnalysisError(f"{fi.loc(stmt)}: dispatch test `{norm(stmt.test)}` in _validate_content is not a comparison "
                                 f"of `{var}` with constant names")
